@@ -71,11 +71,15 @@ type termKey struct {
 
 // Table hash-conses terms. One per worker (not goroutine-safe).
 type Table struct {
+	Raw   bool // selftest only: constructors skip all rewriting
 	m     map[termKey]*Term
 	terms []*Term
 	True  *Term
 	False *Term
 }
+
+// foldTable is used by Eval for constant folding only (results are constants, never retained).
+var foldTable = NewTable()
 
 func NewTable() *Table {
 	t := &Table{m: map[termKey]*Term{}}
@@ -139,6 +143,9 @@ func sval(v uint64, s Sort) int64 {
 }
 
 func (tb *Table) Not(a *Term) *Term {
+	if tb.Raw {
+		return tb.mk(OpNot, Bool, a, nil, nil, 0, 0, 0, "")
+	}
 	if a.IsConst() {
 		return tb.BoolC(a.Val == 0)
 	}
@@ -149,6 +156,9 @@ func (tb *Table) Not(a *Term) *Term {
 }
 
 func (tb *Table) And(a, b *Term) *Term {
+	if tb.Raw {
+		return tb.mk(OpAnd, Bool, a, b, nil, 0, 0, 0, "")
+	}
 	if a.IsConst() {
 		if a.Val == 1 {
 			return b
@@ -171,6 +181,9 @@ func (tb *Table) And(a, b *Term) *Term {
 }
 
 func (tb *Table) Or(a, b *Term) *Term {
+	if tb.Raw {
+		return tb.mk(OpOr, Bool, a, b, nil, 0, 0, 0, "")
+	}
 	if a.IsConst() {
 		if a.Val == 0 {
 			return b
@@ -195,6 +208,9 @@ func (tb *Table) Or(a, b *Term) *Term {
 func (tb *Table) Implies(a, b *Term) *Term { return tb.Or(tb.Not(a), b) }
 
 func (tb *Table) Ite(c, a, b *Term) *Term {
+	if tb.Raw {
+		return tb.mk(OpIte, a.Sort, c, a, b, 0, 0, 0, "")
+	}
 	if c.IsConst() {
 		if c.Val == 1 {
 			return a
@@ -234,6 +250,9 @@ func (tb *Table) Ite(c, a, b *Term) *Term {
 }
 
 func (tb *Table) Eq(a, b *Term) *Term {
+	if tb.Raw {
+		return tb.mk(OpEq, Bool, a, b, nil, 0, 0, 0, "")
+	}
 	if a == b {
 		return tb.True
 	}
@@ -293,6 +312,13 @@ func (tb *Table) Eq(a, b *Term) *Term {
 }
 
 func (tb *Table) Bin(op Op, a, b *Term) *Term {
+	if tb.Raw {
+		rs := a.Sort
+		if op >= OpULt && op <= OpSLe {
+			rs = Bool
+		}
+		return tb.mk(op, rs, a, b, nil, 0, 0, 0, "")
+	}
 	if a.Sort != b.Sort {
 		panic(fmt.Sprintf("bin %s sort mismatch %d %d", opNames[op], a.Sort, b.Sort))
 	}
@@ -547,6 +573,9 @@ func (tb *Table) Bin(op Op, a, b *Term) *Term {
 }
 
 func (tb *Table) BNot(a *Term) *Term {
+	if tb.Raw {
+		return tb.mk(OpBNot, a.Sort, a, nil, nil, 0, 0, 0, "")
+	}
 	if a.IsConst() {
 		return tb.Const(a.Sort, ^a.Val)
 	}
@@ -557,6 +586,9 @@ func (tb *Table) BNot(a *Term) *Term {
 }
 
 func (tb *Table) Neg(a *Term) *Term {
+	if tb.Raw {
+		return tb.mk(OpNeg, a.Sort, a, nil, nil, 0, 0, 0, "")
+	}
 	if a.IsConst() {
 		return tb.Const(a.Sort, -a.Val)
 	}
@@ -565,6 +597,9 @@ func (tb *Table) Neg(a *Term) *Term {
 
 // Extract bits hi..lo inclusive.
 func (tb *Table) Extract(a *Term, hi, lo int) *Term {
+	if tb.Raw {
+		return tb.mk(OpExtract, Sort(hi-lo+1), a, nil, nil, 0, hi, lo, "")
+	}
 	w := Sort(hi - lo + 1)
 	if lo == 0 && w == a.Sort {
 		return a
@@ -639,6 +674,9 @@ func (tb *Table) Extract(a *Term, hi, lo int) *Term {
 
 // Concat: a is the high part.
 func (tb *Table) Concat(a, b *Term) *Term {
+	if tb.Raw {
+		return tb.mk(OpConcat, a.Sort+b.Sort, a, b, nil, 0, 0, 0, "")
+	}
 	if a.IsConst() && b.IsConst() {
 		return tb.Const(a.Sort+b.Sort, a.Val<<uint(b.Sort)|b.Val)
 	}
@@ -653,6 +691,9 @@ func (tb *Table) Concat(a, b *Term) *Term {
 }
 
 func (tb *Table) ZExt(a *Term, w Sort) *Term {
+	if tb.Raw && w > a.Sort {
+		return tb.mk(OpZExt, w, a, nil, nil, 0, int(w-a.Sort), 0, "")
+	}
 	if w == a.Sort {
 		return a
 	}
@@ -669,6 +710,9 @@ func (tb *Table) ZExt(a *Term, w Sort) *Term {
 }
 
 func (tb *Table) SExt(a *Term, w Sort) *Term {
+	if tb.Raw && w > a.Sort {
+		return tb.mk(OpSExt, w, a, nil, nil, 0, int(w-a.Sort), 0, "")
+	}
 	if w == a.Sort {
 		return a
 	}
@@ -785,9 +829,9 @@ func (tb *Table) Eval(t *Term, env map[string]uint64, memo map[*Term]uint64) uin
 	case OpSExt:
 		r = uint64(sval(tb.Eval(t.A[0], env, memo), t.A[0].Sort)) & mask(t.Sort)
 	default:
-		a := tb.Const(t.A[0].Sort, tb.Eval(t.A[0], env, memo))
-		b := tb.Const(t.A[1].Sort, tb.Eval(t.A[1], env, memo))
-		r = tb.Bin(t.Op, a, b).Val
+		a := foldTable.Const(t.A[0].Sort, tb.Eval(t.A[0], env, memo))
+		b := foldTable.Const(t.A[1].Sort, tb.Eval(t.A[1], env, memo))
+		r = foldTable.Bin(t.Op, a, b).Val
 	}
 	memo[t] = r
 	return r
